@@ -609,8 +609,178 @@ pub fn conc_outcome(c: &ConcCase) -> Outcome {
     o
 }
 
+// --------------------------------------------------------------------------------------------
+// a client restarts under its announced identity: the reply goes to the connection the
+// request came from
+
+#[derive(Debug, Clone, Serialize, Deserialize, PartialEq, Eq, Hash)]
+pub struct ReturnCase {
+    /// bystander clients (anonymous) that exchange in between
+    pub others: usize,
+    /// exchanges of the client before it restarts
+    pub before: usize,
+    /// old connection at the restart: 0 = open and idle, 1 = ended (EOF the REP has not read)
+    pub old_state: u8,
+    /// the restart happens while the REP owes a bystander a reply
+    pub rep_busy: bool,
+    /// exchanges after the restart
+    pub after: usize,
+}
+
+pub fn return_outcome(c: &ReturnCase) -> Outcome {
+    let mut o = Outcome::new(hash_of(c));
+    o.nontrivial = true;
+    o.class("client-restarts-under-its-identity");
+    let c2 = c.clone();
+    let (r, panics) = capture_panics(|| {
+        run_sim(async move {
+            let c = c2;
+            let mut f: Vec<Failure> = vec![];
+            let mut sim = Sim::new();
+            let rep = sim.socket(Kind::Rep, None);
+            let mut client = match crate::simx::attach_raw(&mut sim, rep, Some(b"client-a")).await {
+                Ok((l, _)) => l,
+                Err(e) => {
+                    fail!(f, "C08/REP/setup", "{}", e);
+                    return f;
+                }
+            };
+            let mut others: Vec<Link> = vec![];
+            for _ in 0..c.others {
+                match crate::simx::attach_raw(&mut sim, rep, None).await {
+                    Ok((l, _)) => others.push(l),
+                    Err(e) => {
+                        fail!(f, "C08/REP/setup", "{}", e);
+                        return f;
+                    }
+                }
+            }
+            let mut n = 0usize;
+            // one lock-step exchange of `link`: request, recv, reply; the reply must appear on
+            // `link` and nowhere else
+            macro_rules! exchange {
+                ($link:expr, $all:expr, $who:expr) => {{
+                    n += 1;
+                    let q = format!("q{}", n).into_bytes();
+                    let a = format!("a{}", n).into_bytes();
+                    let before: Vec<usize> = $all.iter().map(|l: &Link| l.from_lib.tap_len()).collect();
+                    let mine = $link.from_lib.tap_len();
+                    $link.raw_send_now(&[vec![], q.clone()]);
+                    let r = sim.recv(rep);
+                    match sim.run(r).await {
+                        Ok(Some(Out::Recv(Ok(m)))) if m == vec![q.clone()] => {}
+                        other => {
+                            fail!(f, "C08/REP/request-not-received", "{}: request #{}: {:?}", $who, n, other.map(|o| o.map(|o| format!("{:?}", o).chars().take(100).collect::<String>())));
+                            return f;
+                        }
+                    }
+                    let s = sim.send(rep, &[a.clone()]);
+                    let res = sim.run(s).await;
+                    let elsewhere: Vec<usize> = (0..$all.len()).filter(|i| $all[*i].from_lib.tap_len() != before[*i] && !std::sync::Arc::ptr_eq(&$all[*i].from_lib.0, &$link.from_lib.0)).collect();
+                    let got = $link.from_lib.tap_from(mine);
+                    if !elsewhere.is_empty() || got != refcodec::encode_message(&[vec![], a.clone()]) {
+                        fail!(
+                            f,
+                            "C08/REP/reply-not-on-the-requesting-connection",
+                            "{}: request #{} came in on one connection; the reply ({:?}) put {} bytes there and wrote to {} other connection(s)",
+                            $who,
+                            n,
+                            res.map(|o| o.map(|o| o.err_text().map(|s| s.to_string()))),
+                            got.len(),
+                            elsewhere.len()
+                        );
+                        return f;
+                    }
+                }};
+            }
+            for _ in 0..c.before {
+                let all: Vec<Link> = std::iter::once(client.clone()).chain(others.iter().cloned()).collect();
+                exchange!(client, all, "client before its restart");
+                for o in others.clone() {
+                    let all: Vec<Link> = std::iter::once(client.clone()).chain(others.iter().cloned()).collect();
+                    exchange!(o, all, "bystander");
+                }
+            }
+            // the restart
+            let old = client.clone();
+            if c.old_state == 1 {
+                old.to_lib.end_after_all(crate::pipe::ReadEnd::Eof);
+            }
+            let mut owed: Option<(Link, Vec<u8>, usize)> = None;
+            if c.rep_busy {
+                if let Some(b) = others.first().cloned() {
+                    n += 1;
+                    let q = format!("q{}", n).into_bytes();
+                    b.raw_send_now(&[vec![], q.clone()]);
+                    let r = sim.recv(rep);
+                    match sim.run(r).await {
+                        Ok(Some(Out::Recv(Ok(m)))) if m == vec![q.clone()] => owed = Some((b.clone(), format!("a{}", n).into_bytes(), b.from_lib.tap_len())),
+                        other => {
+                            fail!(f, "C08/REP/request-not-received", "bystander: {:?}", other.map(|o| o.map(|o| format!("{:?}", o).chars().take(100).collect::<String>())));
+                            return f;
+                        }
+                    }
+                }
+            }
+            client = match crate::simx::attach_raw(&mut sim, rep, Some(b"client-a")).await {
+                Ok((l, _)) => l,
+                Err(e) => {
+                    fail!(f, "C08/REP/returning-client-not-admitted", "{}", e);
+                    return f;
+                }
+            };
+            if let Some((b, a, mine)) = owed {
+                let s = sim.send(rep, &[a.clone()]);
+                let _ = sim.run(s).await;
+                if b.from_lib.tap_from(mine) != refcodec::encode_message(&[vec![], a]) {
+                    fail!(f, "C08/REP/reply-not-on-the-requesting-connection", "the reply owed to a bystander while another client restarted did not reach the bystander");
+                    return f;
+                }
+            }
+            let old_tap = old.from_lib.tap_len();
+            for _ in 0..c.after.max(1) {
+                let all: Vec<Link> = std::iter::once(client.clone()).chain(others.iter().cloned()).chain(std::iter::once(old.clone())).collect();
+                exchange!(client, all, "client after its restart (fresh connection)");
+                for o in others.clone() {
+                    let all: Vec<Link> = std::iter::once(client.clone()).chain(others.iter().cloned()).chain(std::iter::once(old.clone())).collect();
+                    exchange!(o, all, "bystander");
+                }
+            }
+            if old.from_lib.tap_len() != old_tap {
+                fail!(f, "C08/REP/reply-not-on-the-requesting-connection", "{} bytes were written to the connection the client had before its restart", old.from_lib.tap_len() - old_tap);
+            }
+            f
+        })
+    });
+    if let Some(f) = r {
+        o.failures = f;
+    }
+    for p in panics {
+        o.fail(format!("C08/panic/{}", panic_sig(&p)), p);
+    }
+    o
+}
+
 pub fn run(ctx: &Ctx) -> (Report, PropertyMeta) {
     let mut report = Report::default();
+    {
+        let mut rc = vec![];
+        for others in 0..=2usize {
+            for before in 0..=2usize {
+                for old_state in 0..=1u8 {
+                    for rep_busy in [false, true] {
+                        if rep_busy && others == 0 {
+                            continue;
+                        }
+                        rc.push(ReturnCase { others, before, old_state, rep_busy, after: 2 });
+                    }
+                }
+            }
+        }
+        let r = run_cases(ctx, "return", &rc, return_outcome);
+        report.exhaustive_parts.push(format!("REP: a client with an announced identity restarts on a fresh connection (0..2 bystanders x 0..2 earlier exchanges x old connection idle / ended-unseen x REP idle / owing a bystander a reply): {} cases", rc.len()));
+        report.merge(r);
+    }
     let t = ctx.tier;
     let maxlen = t.pick(6, 9);
     let mut cases = vec![];
@@ -718,6 +888,7 @@ pub fn replay(_ctx: &Ctx, kind: &str, case: &Value) -> Vec<Failure> {
     match kind {
         "sequence" => parse_case::<SeqCase>(case).map(|c| seq_outcome(&c).failures),
         "concurrent" => parse_case::<ConcCase>(case).map(|c| conc_outcome(&c).failures),
+        "return" => parse_case::<ReturnCase>(case).map(|c| return_outcome(&c).failures),
         "stress" => Ok(crate::stress::replay(_ctx, "C08", case)),
         _ => Err(vec![Failure::new("replay/unknown-kind", kind.to_string())]),
     }
